@@ -559,7 +559,8 @@ entry_json (GIRepository *repo, const char *ns, GIBaseInfo *info)
                 guint k;
                 g_string_append (out, "{\"name\":");
                 jstr (g_base_info_get_name (item));
-                g_string_append_printf (out, ",\"value32\":%u,\"c_identifier\":", (guint) (g_value_info_get_value (item) & 0xffffffff));
+                g_string_append_printf (out, ",\"value32\":%u,\"value\":%lld,\"c_identifier\":", (guint) (g_value_info_get_value (item) & 0xffffffff),
+                                        (long long) g_value_info_get_value (item));
                 jstr (cid);
                 while (g_base_info_iterate_attributes (item, &iter, &an, &av))
                   if (strcmp (an, "c:identifier") != 0)
